@@ -2,6 +2,7 @@ package main
 
 import (
 	"fmt"
+	"github.com/goatcms/goatcore/varutil"
 	"runtime"
 	"sort"
 	"strconv"
@@ -67,6 +68,10 @@ type run struct {
 	unit    pipservices.TasksUnit
 	grab    sync.Once
 	grabbed pipservices.TasksManager
+	// direct driver, lazy manager: accepted submissions the scope's manager does not know
+	lazyManager     bool
+	unknownAccepted []string
+	taken           map[int][]string // lines a taking probe read from its input
 }
 
 func newRun(p *program) *run {
@@ -94,6 +99,7 @@ func (x *run) probe(a app.App, ctx app.IOContext) (err error) {
 	var deps struct {
 		ID   string `command:"?id"`
 		Fail string `command:"?fail"`
+		Take string `command:"?take"`
 	}
 	if err = ctx.Scope().InjectTo(&deps); err != nil {
 		return err
@@ -117,6 +123,23 @@ func (x *run) probe(a app.App, ctx app.IOContext) (err error) {
 	defer x.inside.Add(-1)
 	x.log(evBegin, id)
 	x.begun[pr.task.rootTop].Store(true)
+	if n, _ := strconv.Atoi(deps.Take); n > 0 {
+		var got []string
+		for k := 0; k < n; k++ {
+			words, _, rerr := varutil.ReadArguments(ctx.IO().In())
+			if rerr != nil {
+				got = append(got, "<"+rerr.Error()+">")
+				break
+			}
+			got = append(got, strings.Join(words, "|"))
+		}
+		x.mu.Lock()
+		if x.taken == nil {
+			x.taken = map[int][]string{}
+		}
+		x.taken[id] = got
+		x.mu.Unlock()
+	}
 	switch pr.Hold {
 	case 1:
 		for k := 0; k < pr.K; k++ {
@@ -399,11 +422,19 @@ func (x *run) runDirect(s *stack) (res *directResult, inconclusive string) {
 	p := x.p
 	res = &directResult{tasks: map[string]pipservices.Task{}}
 	root := scope.New(scope.Params{Name: "c14root"})
-	mgr, err := s.tasks.FromScope(root) // bound to the root scope, as pip:try does before it separates scopes
-	if err != nil {
-		return res, "TasksUnit.FromScope: " + err.Error()
+	// shared mode with several submitters, every other program: nobody asks for the scope's task
+	// manager beforehand – the first submissions, made at the same moment, create it themselves
+	// and must all end up in the one manager of the scope
+	lazy := p.Mode == "shared" && p.Submitters > 1 && len(p.tops)%2 == 0
+	x.lazyManager = lazy
+	var mgr pipservices.TasksManager
+	var err error
+	if !lazy {
+		if mgr, err = s.tasks.FromScope(root); err != nil { // bound to the root scope, as pip:try does before it separates scopes
+			return res, "TasksUnit.FromScope: " + err.Error()
+		}
+		res.mgr = mgr
 	}
-	res.mgr = mgr
 	scopes := make([]app.Scope, len(p.tops))
 	for i := range p.tops {
 		if p.Mode == "separated" {
@@ -442,7 +473,11 @@ func (x *run) runDirect(s *stack) (res *directResult, inconclusive string) {
 				x.runSeq[i] = x.seq.Load()
 				x.accepted[i] = err == nil
 				if err == nil {
-					if tk, ok := mgr.Get(t.Full); ok {
+					m := mgr
+					if lazy {
+						m, _ = s.tasks.FromScope(root) // exists by now: a submission was accepted
+					}
+					if tk, ok := m.Get(t.Full); ok {
 						tmu.Lock()
 						res.tasks[t.Full] = tk
 						tmu.Unlock()
@@ -460,6 +495,20 @@ func (x *run) runDirect(s *stack) (res *directResult, inconclusive string) {
 	if v, _ := x.await(subsDone, base); v != "done" {
 		close(x.abort)
 		return res, "submitter goroutines did not finish (" + v + ")"
+	}
+	if lazy {
+		if mgr, err = s.tasks.FromScope(root); err != nil {
+			return res, "TasksUnit.FromScope: " + err.Error()
+		}
+		res.mgr = mgr
+		// every accepted submission must be a task of the scope's manager
+		for i, t := range p.tops {
+			if x.accepted[i] {
+				if _, ok := mgr.Get(t.Full); !ok {
+					x.unknownAccepted = append(x.unknownAccepted, t.Full)
+				}
+			}
+		}
 	}
 	// TasksManager.Wait under the progress monitor
 	waitDone := make(chan struct{})
